@@ -10,7 +10,46 @@ PROP = 'C28'
 FAILURE_KINDS = ('RpcError', 'ConnectionError', 'ReadTimeout', 'RuntimeError')
 
 
-def impl_nodes_used(n, outcomes, kinds=None, mutate=None):
+FORMS = ("request('GET', p)", "request('GET', p, stream=True)", "request('POST', p, json={}, timeout=3)", "get(p)", "post(p, json={'a': 1})",
+         "get(p, params={'a': 1}, timeout=1)", "request('GET', 'monitor/heads/main', stream=True, timeout=None)", "put(p)", "delete(p)",
+         "request('GET', p, stream=False)")
+
+
+class _Resp:
+    status_code = 200
+    text = '"ok"'
+
+    def json(self):
+        return 'ok'
+
+    def iter_lines(self):
+        return iter(())
+
+
+def _issue(cli, form):
+    p = 'x'
+    if form == 0:
+        return cli.request('GET', p)
+    if form == 1:
+        return cli.request('GET', p, stream=True)
+    if form == 2:
+        return cli.request('POST', p, json={}, timeout=3)
+    if form == 3:
+        return cli.get(p)
+    if form == 4:
+        return cli.post(p, json={'a': 1})
+    if form == 5:
+        return cli.get(p, params={'a': 1}, timeout=1)
+    if form == 6:
+        return cli.request('GET', 'monitor/heads/main', stream=True, timeout=None)
+    if form == 7:
+        return cli.put(p)
+    if form == 8:
+        return cli.delete(p)
+    return cli.request('GET', p, stream=False)
+
+
+def impl_nodes_used(n, outcomes, kinds=None, mutate=None, forms=None):
     """outcomes: 1 = the node answers, 0 = the request fails; kinds (same length, optional): which exception a failing request
     raises — the property says "regardless of failures", so the way a request fails must not matter"""
     import requests
@@ -29,7 +68,7 @@ def impl_nodes_used(n, outcomes, kinds=None, mutate=None):
             used.append(i)
             ok, kind = next(it)
             if ok:
-                return 'ok'
+                return _Resp()
             raise excs[kind]()
         return request
 
@@ -43,7 +82,7 @@ def impl_nodes_used(n, outcomes, kinds=None, mutate=None):
             elif len(uris) > 1:
                 uris.pop()
         try:
-            cli.request('GET', 'x')
+            _issue(cli, forms[step] if forms else 0)
         except Exception:
             pass
     return used
@@ -52,7 +91,7 @@ def impl_nodes_used(n, outcomes, kinds=None, mutate=None):
 def run(ctx):
     ctx.prepare_lean(extract.generate(PROP))
     ctx.extra['rule'] = ('node counts 1..4 x success/error sequences (exhaustive up to a length, then random longer ones); failing requests raise RpcError, '
-                         'requests ConnectionError / ReadTimeout or RuntimeError (drawn per request in two thirds of the cases); '
+                         'requests ConnectionError / ReadTimeout or RuntimeError (drawn per request in two thirds of the cases); half of the cases issue requests through get/post/put/delete and with stream= / timeout= / params= / json= keywords; '
                          'non-trivial = contains at least one error and n >= 2')
     max_len = 7 if ctx.tier == 'quick' else 11
     cases = []
@@ -72,7 +111,12 @@ def run(ctx):
         # the failure kind of every failing request: all RpcError for every third case, otherwise drawn per request
         kinds = [0] * len(os_) if idx % 3 == 0 else [ctx.rng.randrange(len(FAILURE_KINDS)) for _ in os_]
         mutate = (ctx.rng.randrange(0, len(os_)), ctx.rng.choice([1, -1])) if (idx % 5 == 2 and os_) else None
-        used = impl_nodes_used(n, os_, kinds, mutate)
+        # how each request is issued: plain request() for half of the cases, otherwise drawn per request from the public verbs and the
+        # keyword arguments callers pass through (stream=True is what the /monitor wrappers use)
+        forms = None if idx % 2 == 0 else [ctx.rng.randrange(len(FORMS)) if ctx.rng.random() < 0.6 else 0 for _ in os_]
+        used = impl_nodes_used(n, os_, kinds, mutate, forms)
+        for f in forms or []:
+            ctx.count('request_form', FORMS[f])
         if mutate:
             ctx.count('uri_list_mutated_after_construction', 'grown' if mutate[1] > 0 else 'shrunk')
         ctx.case({'n': n, 'outcomes': os_, 'failure_kinds': [FAILURE_KINDS[k] for o, k in zip(os_, kinds) if not o]}, nontrivial=(0 in os_ and n >= 2))
@@ -90,10 +134,23 @@ def run(ctx):
             fk = [FAILURE_KINDS[kk] if not o else 'ok' for o, kk in zip(os_[:k], kinds[:k])]
             if any(kk for o, kk in zip(os_[:k], kinds[:k]) if not o):
                 key += ' failures=' + ','.join(fk)
+            if forms and any(forms[:k]):
+                # which form matters?  replay the prefix with one non-plain form at a time
+                culprit = None
+                for f in sorted(set(forms[:k]) - {0}):
+                    only = [x if x == f else 0 for x in forms[:k]]
+                    if impl_nodes_used(n, os_[:k], kinds[:k], None, only) != want[:k]:
+                        culprit = f
+                        break
+                if culprit is not None and impl_nodes_used(n, os_[:k], kinds[:k], None, None) == want[:k]:
+                    key = f'rotation-depends-on-request-form: {FORMS[culprit]}'
+                else:
+                    key += ' forms=' + ','.join(str(x) for x in forms[:k])
             if mutate and mutate[0] < k:
                 key += f" caller's-uri-list-{'grown' if mutate[1] > 0 else 'shrunk'}-before-request-{mutate[0]}" 
-            ctx.violation(key, f'n={n} outcomes={fk}: nodes used {used[:k]} expected {want[:k]}',
-                          {'n': n, 'outcomes': os_[:k], 'failure_kinds': fk, 'used': used[:k], 'expected': want[:k]})
+            how = f' issued as {[FORMS[x] for x in forms[:k]]}' if forms and any(forms[:k]) else ''
+            ctx.violation(key, f'n={n} outcomes={fk}{how}: nodes used {used[:k]} expected {want[:k]}',
+                          {'n': n, 'outcomes': os_[:k], 'failure_kinds': fk, 'forms': [FORMS[x] for x in (forms or [])[:k]], 'used': used[:k], 'expected': want[:k]})
         if model is not None:
             got = ' '.join(map(str, used))
             if got != model[idx]:
